@@ -19,7 +19,7 @@ ENV = dict(os.environ, GOFLAGS="-mod=mod", GOPROXY="off", GOSUMDB="off", GOTOOLC
 ENV.pop("GOWORK", None)
 
 def run(cmd, cwd=None, timeout=600):
-    r = subprocess.run(cmd, cwd=cwd, capture_output=True, text=True, env=ENV, timeout=timeout)
+    r = subprocess.run(cmd, cwd=cwd, capture_output=True, text=True, errors="replace", env=ENV, timeout=timeout)
     return r.returncode, r.stdout + r.stderr
 
 def main():
